@@ -678,9 +678,11 @@ func (l *lexer) scanCodeBlock(p int) (int, ast.Context) {
 	if p < len(l.src) {
 		switch l.src[p] {
 		case '\t':
+			l.column++
 			return p + 1, ast.ContextTabCodeBlock
 		case ' ':
 			if p+3 < len(l.src) && l.src[p+1] == ' ' && l.src[p+2] == ' ' && l.src[p+3] == ' ' {
+				l.column += 4
 				return p + 4, ast.ContextSpacesCodeBlock
 			}
 		}
